@@ -29,9 +29,11 @@ package decoder
 
 // ---- C07: the prefix of a name or label being typed is the token under the cursor
 //@ contract decoder.nameTokenRangeAtPos (tokens, pos) (rng, err)
+//@   loop 1 iter [C07,name:scan-goes-on-only-past-tokens-that-do-not-hold-the-cursor] !t.Range.ContainsPos(pos)
 //@   ensures [C07,name:identifier-under-the-cursor] implies(t.Range.ContainsPos(pos) && t.Type == hclsyntax.TokenIdent, err == nil && rng == t.Range)
 //@   ensures [C07,name:identifier-before-the-newline] implies(t.Range.ContainsPos(pos) && t.Type == hclsyntax.TokenNewline && i > 0 && tokens[i-1].Type == hclsyntax.TokenIdent, err == nil && rng == tokens[i-1].Range)
 //@ contract decoder.labelTokenRangeAtPos (tokens, pos) (rng, err)
+//@   loop 1 iter [C07,name:scan-goes-on-only-past-tokens-that-are-not-label-text-under-the-cursor] !(t.Range.ContainsPos(pos) && (t.Type == hclsyntax.TokenQuotedLit || t.Type == hclsyntax.TokenIdent))
 //@   ensures [C07,name:label-text-under-the-cursor] implies(t.Range.ContainsPos(pos) && (t.Type == hclsyntax.TokenQuotedLit || t.Type == hclsyntax.TokenIdent), err == nil && rng == t.Range)
 //@   ensures [C07,name:label-text-before-the-closing-quote] implies(err == nil && !(t.Type == hclsyntax.TokenQuotedLit || t.Type == hclsyntax.TokenIdent), t.Range.ContainsPos(pos) && t.Type == hclsyntax.TokenCQuote && i > 0 && tokens[i-1].Type == hclsyntax.TokenQuotedLit && rng == tokens[i-1].Range)
 
@@ -192,6 +194,8 @@ package decoder
 //@ contract (*decoder.Decoder).Symbols (d, ctx, query) (result, err)
 //@   ensures [C14] err == nil
 //@ contract (*decoder.PathDecoder).hoverAtPos (d, ctx, body, bodySchema, pos) (result, err)
+//@   assert before decoder.hoverContentForAttribute#1 : [C12,name:declared-attribute-is-described-by-its-own-schema] implies(!(bodySchema.Extensions != nil && bodySchema.Extensions.Count && name == "count") && !(bodySchema.Extensions != nil && bodySchema.Extensions.ForEach && name == "for_each") && haskey(bodySchema.Attributes, attr.Name), arg1 == bodySchema.Attributes[attr.Name])
+//@   assert before (*decoder.PathDecoder).newExpression#1 : [C12,name:declared-attribute-is-read-with-its-own-constraint] implies(!(bodySchema.Extensions != nil && bodySchema.Extensions.Count && name == "count") && !(bodySchema.Extensions != nil && bodySchema.Extensions.ForEach && name == "for_each") && haskey(bodySchema.Attributes, attr.Name), arg2 == bodySchema.Attributes[attr.Name].Constraint && arg1 == attr.Expr)
 //@   ghost effective after schemahelper.MergeBlockBodySchemas#1 : true
 //@   assert before hoverAtPos#1 : [C12,C16,name:nested-body-read-with-its-effective-schema] effective && arg3 == mergedSchema
 //@   assert before schemahelper.MergeBlockBodySchemas#1 : [C12,C16,name:effective-schema-of-this-block] arg1 == bodySchema.Blocks[block.Type]
@@ -288,6 +292,7 @@ package decoder
 //@ contract (*decoder.PathDecoder).referenceOriginsInBody (d, body, bodySchema) (origins, impliedOrigins)
 //@   loop 1 invariant [C10,claim] implies(schema.ActiveSelfRefsFromContext(ctx), bodySchema.Extensions != nil && bodySchema.Extensions.SelfRefs)
 //@   assert before invoke:ReferenceOrigins#1 : [C10] implies(schema.ActiveSelfRefsFromContext(arg0), bodySchema.Extensions != nil && bodySchema.Extensions.SelfRefs)
+//@   assert before invoke:ReferenceOrigins#1 : [C10,C03,name:self-references-are-read-wherever-the-body-enables-them] implies(bodySchema.Extensions != nil && bodySchema.Extensions.SelfRefs, schema.ActiveSelfRefsFromContext(arg0))
 //@   ghost effective after schemahelper.MergeBlockBodySchemas#1 : true
 //@   assert before (*decoder.PathDecoder).referenceOriginsInBody#1 : [C10,C16,name:nested-body-read-with-its-effective-schema] effective && arg2 == mergedSchema
 //@   assert before schemahelper.MergeBlockBodySchemas#1 : [C10,C16,name:effective-schema-of-this-block] arg0 == block.Block && arg1 == bodySchema.Blocks[block.Type]
